@@ -1123,6 +1123,14 @@ int32_t delta_from_arg_vals(const rtosc_arg_val_t* llhsarg,
         rtosc_arg_val_t width, div, width2;
         rtosc_arg_val_sub(rhsarg, lhsarg, &width);
         rtosc_arg_val_div(&width, delta, &div);
+        if(div.type == 'f' || div.type == 'd')
+        {
+            // take the nearest "n": rtosc_arg_val_round() rounds down
+            // (unless the fractional part is at least 0.999)
+            rtosc_arg_val_t half;
+            rtosc_arg_val_from_double(&half, div.type, 0.5);
+            rtosc_arg_val_add(&div, &half, &div);
+        }
         rtosc_arg_val_round(&div);
         rtosc_arg_val_mult(&div, delta, &width2);
 
